@@ -25,14 +25,15 @@ def main(tier):
     consumers.base64_length(P, rep)
     consumers.grid_cartesian(P, rep)
     rep.attempt(consumers.grid_chunk, P, rep)
+    rep.attempt(consumers.grid_annulus, P, rep)
     from ..rules import frame as _frame
     rep.attempt(_frame.bilinear_patch, P, rep)
     rep.attempt(_frame.sphere_projection, P, rep)     # sphere grid: nodes are moved along their ray onto the requested radius
     consumers.option_loop_discipline(P, rep, "gwb-grid", "GRID.options")
     rep.assumptions.append("of the four grid generators the Cartesian one is decided (node positions, connectivity); of the sphere generator the "
                            "bilinear block patch and the projection onto the radius; the chunk generator is decided (lattice, conversion, "
-                           "connectivity, compressed numbering); node placement and connectivity of the annulus generator, the uncompressed numbering "
-                           "and the merging of sphere blocks are NOT decided (DESIGN.md §4 C18)")
+                           "connectivity, compressed numbering) and so is the annulus generator (incl. the wrap-around column); the uncompressed "
+                           "numbering and the merging of sphere blocks are NOT decided (DESIGN.md §4 C18)")
     rep.explanation = ("Layout agreement between gwb-grid's request list, the library's width table, the output offsets stored "
                        "into each VTU data set, dataSetInfo and filter_vtu_mesh's literal indices; same-index provenance of node "
                        "position and depth; parallel-loop discipline; structure of the mesh filter.")
